@@ -42,6 +42,14 @@ EstimateW(st, b) == W!WMin({st.tab[Idx(st, r, b)] : r \in 1..st.d})
 MergeW(a, c) == [a EXCEPT !.tab = [i \in DOMAIN a.tab |-> W!WAdd(a.tab[i], c.tab[i])], !.total = W!WAdd(@, c.total)]
 HalveW(st) == [st EXCEPT !.tab = [i \in DOMAIN st.tab |-> W!WHalf(st.tab[i])], !.total = W!WHalf(@)]
 
+\* decay on 64-bit quantities: v -> trunc(v as f64 * d) is given as a finite map F (set of <<v, F(v)>> pairs
+\* covering every counter, the total and every exact weight); whatever the rounding of the f64 product,
+\* F must be monotone and non-increasing for the one-sided guarantee to survive the scaling
+WApply(F, v) == (CHOOSE p \in F : p[1] = v)[2]
+WCovers(F, S) == \A v \in S : \E p \in F : p[1] = v
+WMonotone(F) == \A p \in F : \A q \in F : (W!WLeq(p[1], q[1]) => W!WLeq(p[2], q[2])) /\ W!WLeq(p[2], p[1])
+DecayW(st, F) == [st EXCEPT !.tab = [i \in DOMAIN st.tab |-> WApply(F, st.tab[i])], !.total = WApply(F, @)]
+
 (* ---- C08 ----------------------------------------------------------------- *)
 \* truth: [item -> true weight], bk: [item -> bucket tuple]
 OneSided(st, truth, bk, items) ==
